@@ -27,7 +27,25 @@ struct vt_in { uint8_t len, start, nput, nget; uint8_t val[NPUT]; uint8_t sched[
 #include "vt_in.h"
 
 /* ---- what the generated machines call ---- */
-#ifndef VT_MONITOR
+static ringbuf_t rb;
+static uint8_t *storage;
+static unsigned len;
+#ifdef VT_MONITOR	/* C07 */
+#define VT_NAG 2
+#define VT_NLOC (MAXLEN + 4)
+static int vt_cur;
+static int vt_loc_of(char *addr, unsigned size)
+{
+	(void)size;
+	if (VT_IN_OBJECT(addr, storage, len)) return (int)(addr - (char *)storage);	/* payload bytes */
+	if (addr == (char *)&rb.readi) return MAXLEN;
+	if (addr == (char *)&rb.writei) return MAXLEN + 1;
+	if (addr == (char *)&rb.bufp) return MAXLEN + 2;
+	if (addr == (char *)&rb.buf_len) return MAXLEN + 3;
+	return -1;
+}
+#include "vt_monitor.h"
+#else
 #define VT_ACCESS(addr, size, kind, order) ((void)0)
 #endif
 #define VT_CAS_SPURIOUS() 0
@@ -37,10 +55,6 @@ static void vt_event(int code, int arg);
 #include "c05_gen.c"
 
 enum { EV_PUT_BEGIN = 1, EV_PUT_END, EV_GET_BEGIN, EV_GET_END, EV_EMPTY_BEGIN, EV_EMPTY_END };
-
-static ringbuf_t rb;
-static uint8_t *storage;
-static unsigned len;
 
 /* ---- ghost state ---- */
 static uint8_t sent[NPUT]; static unsigned nsent;	/* bytes of puts that succeeded or are in progress, in order */
@@ -122,6 +136,9 @@ void h_ring(void)
 	ringbuf_init(&rb, storage, len);
 	atomic_store(&rb.readi, in.start); atomic_store(&rb.writei, in.start);	/* every starting position incl. wrap-around */
 
+#ifdef VT_MONITOR
+	vt_monitor_init();
+#endif
 	static CTX(PRODUCER) p; static CTX(CONSUMER) c;
 	p.pc = 0; p.done = 0; p.v_0 = (char *)&rb; p.v_1 = in.nput;
 	c.pc = 0; c.done = 0; c.v_0 = (char *)&rb; c.v_1 = in.nget;
@@ -137,8 +154,15 @@ void h_ring(void)
 #elif DISC == 2
 		if (get_open || empty_open) __CPROVER_assume(who == 1);
 #endif
+#ifdef VT_MONITOR
+		vt_cur = who;
+#endif
 		if (who == 0) { __CPROVER_assume(!p.done); STEP(PRODUCER)(&p); }
 		else { __CPROVER_assume(!c.done); STEP(CONSUMER)(&c); }
+#ifdef VT_MONITOR
+		VT_ASSERT(!vt_race);	/* every plain access is ordered by happens-before with every conflicting access of the other agent */
+		VT_ASSERT(!vt_stray);	/* and the agents touch nothing but the ring structure and its storage */
+#endif
 		sample();
 	}
 	__CPROVER_assume(p.done && c.done);			/* K is the exact sum of the agents' maximal step counts */
